@@ -415,10 +415,33 @@ func (tree *Rtree) condenseTree(n *node) {
 		n = n.parent
 	}
 
+	if !tree.root.leaf && len(tree.root.entries) == 0 && len(deleted) > 0 {
+		// Every branch of the root was removed on the way up, so there is no
+		// node left to hang the orphaned nodes under: start over with an
+		// empty leaf root and put their objects back one by one.
+		tree.root = &node{leaf: true, level: 1, entries: make([]entry, 0, tree.MaxChildren)}
+		tree.height = 1
+		for _, n := range deleted {
+			tree.reinsertObjects(n)
+		}
+		return
+	}
+
 	for _, n := range deleted {
 		// reinsert entry so that it will remain at the same level as before
 		e := entry{n.computeBoundingBox(), n, nil}
 		tree.insert(e, n.level+1)
+	}
+}
+
+// reinsertObjects inserts the objects stored below n into the tree again.
+func (tree *Rtree) reinsertObjects(n *node) {
+	for _, e := range n.entries {
+		if n.leaf {
+			tree.insert(entry{e.bb, nil, e.obj}, 1)
+		} else if e.child != nil {
+			tree.reinsertObjects(e.child)
+		}
 	}
 }
 
